@@ -118,11 +118,9 @@ def run(ctx, R, tier):
 
     # ---------------------------------------------------------------- R2
     cfg = ctx.cfg(d2c)
-    cname = None
-    for st, t, k in stores_in(d2c.node):
-        if k == "assign" and isinstance(t, ast.Name) and isinstance(st.value, ast.Call) and isinstance(st.value.func, ast.Attribute) and st.value.func.attr == "get" \
-                and st.value.args and isinstance(st.value.args[0], ast.Constant) and st.value.args[0].value == "__class__":
-            cname = t.id
+    from .common import classname_defs
+    _cd = classname_defs(d2c.node)
+    cname = _cd[0].targets[0].id if _cd else None
     if cname is None:
         raise AnalysisError("dict_to_class: classname variable vanished")
     n_tags = 0
@@ -319,6 +317,12 @@ def run(ctx, R, tier):
                         g.loc(bad) if bad is not None else "", unparse(c, 50)))
     if n6 < 5:
         raise AnalysisError("fewer user-code call sites on the dispatch path than expected (%d)" % n6)
+    # the daemon's default error hook runs inside the except block that holds the user's exception: if it raises, its error replaces the user's
+    dh = ctx.fn("Pyro5.server._default_methodcall_error_handler")
+    desc = {k: v for k, v in es.escapes(dh.qualname).items()}
+    R.check(not desc, "C07-R6", "_default_methodcall_error_handler|cannot-raise", "the default method-call error hook has an empty escape set", dh.loc(),
+            "the hook can raise %s (%s): it is called while the user's exception is being handled, so its own error is what the caller receives" % (
+                sorted({k[0].rsplit(".", 1)[-1] for k in desc}), "; ".join(sorted({v[0] for v in desc.values()}))[:200]))
 
     # ---------------------------------------------------------------- R4
     inv = ctx.fn("Pyro5.client.Proxy._pyroInvoke")
